@@ -226,3 +226,9 @@ package origins
 //@   loop 0 invariant previousByteWasLabelSep == (i > 0 && str[i-1] == '.')
 //@   loop 0 invariant assumeIPv4 == IPish(str, i)
 //@   loop 0 decreases len(str) - i
+
+//@ func Tree.Elems
+//@   props C06 C12 C17
+//@   trusted recursive rendering with string concatenation (node.elems): outside the subset; bounded stand-in: the C01 harness runs Elems on every enumerated tree and re-parses its output
+//@   requires t != nil
+//@   allocs <= 1
